@@ -51,6 +51,7 @@ type c10Sys struct {
 	unified  map[int][]int // unified device id -> actual ids
 	verbose  bool
 	tainted  string // set once a cross-PID free happened
+	skipInv  bool
 	lastDump string
 }
 
@@ -695,6 +696,12 @@ func (s *c10Sys) exec(op string) (res c10Result) {
 		fault = run(func() { np, old = s.drv.VerifPreparePageForMigration(s.ctxs[ci], v, uint64(g)) })
 		if fault == "" {
 			out = fmt.Sprintf("=%x/%x", np.PAddr, old)
+			if g >= s.numGPUs {
+				// not a call the driver makes (it only iterates over actual GPUs): the entry now
+				// records a non-GPU device by construction; end the case without judging the state
+				s.tainted = "rmpage"
+				s.skipInv = true
+			}
 		}
 	case "rmpage":
 		v := pu(1)
@@ -787,7 +794,7 @@ func c10RunCase(r *Run, cfg string, s *c10Sys, next func(s *c10Sys, step int) st
 			outs = append(outs, res.out+" #"+strconv.FormatUint(fnvStr(d), 16))
 		}
 		sig, det := res.sig, res.det
-		if sig == "" {
+		if sig == "" && !s.skipInv {
 			sig, det = s.checkInv(es)
 		}
 		if sig == "" && s.tainted != "rmpage" {
@@ -1072,6 +1079,9 @@ func c10ScriptedB(r *Run, log2 uint64, cpu int, gpus []int, ops []string, buddy 
 }
 
 func runC10(r *Run, rng *Rng, replay string) {
+	// common.go's NewRng(seed) starts splitmix64 at seed*gamma: consecutive seeds give the same
+	// stream shifted by one draw. Re-seed from a mixed output so that seeds give unrelated histories.
+	rng = NewRng(rng.U64() ^ (r.Seed << 32) ^ 0xC10C10)
 	if f := os.Getenv("C10_CASE"); f != "" { // manual replay of one case line
 		parts := strings.Split(f, ";")
 		t := strings.Fields(parts[0])
